@@ -435,7 +435,7 @@ func init() {
 		Rule: "scenario = generated CRS tree (assembly programs biased to map-driven constructs: ambiguous directive lines, 1-3 suffix pairs incl. cascades and overlapping keys, nested / cyclic / computed definitions, flag sets, include-except) x 1-2 commands out of {generate, generate -, update, update --all, compare, compare --all, compare -o github, format, format --all, format --check} x 3 (quick) / 8 (thorough) seeded schedules (per-site default decision + <=4 per-event overrides; identity, reverse, rotations, seeded shuffles), each also with another simulated instant, unrelated environment variables and (30%) the tree relocated under another parent directory; oracle: exit status, stdout and the final tree equal those of the identity schedule. Non-trivial = at least one map-range event with >=2 elements received a non-identity order; distinct = distinct (world, commands, schedules).",
 		Gen:   genC03,
 		Eval:  evalC03,
-		QuickChecks: 60, ThoroughChecks: 1500, Timeout: 20 * time.Second,
+		QuickChecks: 320, ThoroughChecks: 6000, Timeout: 20 * time.Second,
 		Assumptions: []string{
 			"every permutation of a map's keys is a legal iteration order of the Go runtime (language specification)",
 			"map iteration inside dependencies (rassemble-go, yaml.v3, cobra, mergo) is not seamed; the plain-binary cross-runs and the determinism self-test watch for an effect",
